@@ -17,3 +17,5 @@ def run(ctx):
         small2.run(ctx, found=bool(ctx.violations))
         from .. import small1        # AVR / IRCAM / PAF / SVX / VOC / NIST container models (lean/SfModel/SmallSession.lean + one file each)
         small1.run(ctx, found=bool(ctx.violations))
+        from .. import gsmgeom       # WAV / WAVEX GSM 6.10: frames at re-open (lean/SfModel/GsmGeom.lean, SfProps/C04GsmPad.lean)
+        gsmgeom.run(ctx, "C04")
